@@ -1098,9 +1098,13 @@ func (e *Engine) execInstr(fc *fnCtx, b *ssa.BasicBlock, st *State, ins ssa.Inst
 			if d.Block() == b || d.Block().Dominates(b) {
 				e.execCall(fc, b, st, d.Common(), nil, d.Pos())
 			} else {
-				// conditional defer: apply its effect on a copy and merge is not needed for the properties here;
-				// over-approximate by executing it (deferred calls are closers/unlockers with havoc/ispec semantics)
+				// conditional defer (registered on some paths only): its effect is over-approximated by executing it,
+				// but it raises no obligations: on the paths where it was not registered it does not run at all. The
+				// preconditions of such a deferred call are therefore NOT checked (noted in the evidence).
+				e.note("a defer registered on some paths only: its effect is applied at every return, its own obligations are not checked")
+				e.dry++
 				e.execCall(fc, b, st, d.Common(), nil, d.Pos())
+				e.dry--
 			}
 		}
 	case *ssa.Phi:
